@@ -18,7 +18,7 @@ Local equivalents of things one would want in the shared core (see REPORT-C07.md
 import json
 
 from ..core import (AnalysisBroken, canon, strip, walk, norm_cond, last_member, forward,
-                    lvalue_steps, lvalue_root, evloc, names_of, SWAP, NEG, fold)
+                    lvalue_steps, lvalue_root, evloc, names_of, SWAP, NEG, fold, subst)
 from ..analyses import (aval, refine, relevant_vars, liveness, _envkey, is_fail, callback_kind,
                         CALLBACK_FIELDS, HOOK_FIELDS)
 from .. import roles
@@ -69,6 +69,29 @@ def step_of(e):
                 return int_of(r['r']) * (1 if r['op'] == '+' else -1)
             if r['op'] == '+' and canon(r['r']) == me and int_of(r['l']) is not None:
                 return int_of(r['l'])
+    return None
+
+
+def unit_step(g, e):
+    """step_of(e), also when the old value went through a local: `was = c; ...; c = was + 1` (every definition of the
+    local in g is a plain read of the same member)."""
+    n = step_of(e)
+    if n is not None or e.get('op') != '=' or 'rhs' not in e:
+        return n
+    r = strip(e['rhs'])
+    key = counter_key(e)
+    if not (isinstance(r, dict) and r.get('k') == 'bin' and r.get('op') in ('+', '-')) or key is None:
+        return None
+    for (v, c, sign) in ((r['l'], r['r'], 1 if r['op'] == '+' else -1),) + (((r['r'], r['l'], 1),) if r['op'] == '+' else ()):
+        v = strip(v)
+        while isinstance(v, dict) and v.get('k') in ('load', 'cast', 'paren') and 'e' in v:
+            v = strip(v['e'])
+        if int_of(c) is None or not (isinstance(v, dict) and v.get('k') == 'var' and v.get('vk') == 'local'):
+            continue
+        defs = [d for d in g.events() if d['ev'] == 'store' and isinstance(strip(d['lhs']), dict)
+                and strip(d['lhs']).get('k') == 'var' and strip(d['lhs']).get('name') == v['name']]
+        if defs and all(d.get('op') == '=' and 'rhs' in d and last_member(strip_cast(d["rhs"])) == key for d in defs):
+            return int_of(c) * sign
     return None
 
 
@@ -401,11 +424,95 @@ def fold_container_of(prog, g):
             r(blk.term)
 
 
-def inline(prog, f, **kw):
-    """Inliner(prog, **kw).inline(f) followed by the local normalisations: cached addresses resolved, scalar members of
-    file-scope structs turned into variables, written-out container_of arithmetic folded."""
+def _table_inliner(prog, **kw):
+    """core.Inliner that also enters calls through a *constant table of function pointers* (`T[flag].stop(st)`, see
+    const_targets): the call is to one of the functions the table lists at the indexed position(s) -- with several
+    candidates a dispatch over them, which table_dispatch_conditions() then labels with the index value."""
     from ..core import Inliner
-    g = Inliner(prog, **kw).inline(f)
+
+    class TableInliner(Inliner):
+        def _targets(self, caller, e, known_table=None):
+            ts = Inliner._targets(self, caller, e, known_table)
+            if ts is None and 'fnexpr' in e:
+                sk = site_kind(caller, e)
+                if sk is not None and sk[0] not in ('method', 'callback', 'hook'):
+                    ct = const_targets(prog, caller, e['fnexpr'])
+                    if ct and all(t.blocks and not self.stop(t) for t in ct) \
+                            and len({(t.ret == 'void', len(t.params)) for t in ct}) == 1:
+                        return ct
+            return ts
+    return TableInliner(prog, **kw)
+
+
+def _table_index(fnexpr):
+    """(index expression, True) of a call through `T[i]...` when i is the only non-constant index"""
+    x = strip(fnexpr)
+    idx = []
+    while isinstance(x, dict):
+        k = x.get('k')
+        if k == 'member' and not x.get('arrow'):
+            x = strip_cast(x['base'])
+        elif k == 'index' and 'bound' in x:
+            if int_of(x['idx']) is None:
+                idx.append(x['idx'])
+            x = strip_cast(x['base'])
+        elif k == 'deref':
+            x = strip(x['e'])
+        else:
+            break
+    return idx[0] if len(idx) == 1 else None
+
+
+def table_dispatch_conditions(prog, g):
+    """A dispatch over the functions of a constant table that is indexed by a side-effect free scalar expression i
+    (`T[i].f(x)` is `switch (i) { case 0: f0(x); ... }`): the dispatch becomes a cascade of two-way branches `i == k`, so
+    that the analyses correlate it with the other tests of i on the path exactly as they would an if-chain."""
+    new_id = max(g.blocks) + 1
+    changed = False
+    for b in sorted(g.blocks):
+        blk = g.blocks[b]
+        if not (blk.term and blk.term.get('cls') == 'MethodDispatch' and blk.events and blk.events[-1].get('ev') == 'enter'
+                and 'fnexpr' in blk.events[-1] and len(blk.succ) >= 2):
+            continue
+        e = blk.events[-1]
+        i = _table_index(e['fnexpr'])
+        owner = origin(prog, g, e)
+        if i is None or any(y.get('k') in ('call', 'incdec', 'assign', 'stmtexpr') for y in walk(i)):
+            continue
+        # which table positions the successors stand for: one target per position, in order
+        per = [const_targets(prog, owner, subst(e['fnexpr'], lambda nd, k=k: {'k': 'int', 'v': k} if nd is i else None))
+               for k in range(len(blk.succ))]
+        if any(not p_ or len(p_) != 1 for p_ in per) or [p_[0].q for p_ in per] != list(e.get('targets', [])):
+            continue
+        succ = list(blk.succ)
+        cur = blk
+        for k in range(len(succ) - 1):
+            cond = {'k': 'bin', 'op': '==', 'l': i, 'r': {'k': 'int', 'v': k}, 'type': 'int'}
+            cur.term = {'cls': 'IfStmt', 'cond': cond, 'loc': e['loc'], 'table_dispatch': True}
+            if k == len(succ) - 2:
+                cur.succ = [succ[k], succ[k + 1]]
+            else:
+                nb = type(blk)(new_id, [], [], None, False)
+                g.blocks[new_id] = nb
+                cur.succ = [succ[k], new_id]
+                cur = nb
+                new_id += 1
+        changed = True
+    if changed:
+        g._preds = None
+    return g
+
+
+def inline(prog, f, tables=False, **kw):
+    """Inliner(prog, **kw).inline(f) followed by the local normalisations: cached addresses resolved, scalar members of
+    file-scope structs turned into variables, written-out container_of arithmetic folded.  tables: also enter calls
+    through constant tables of function pointers."""
+    from ..core import Inliner
+    if tables:
+        g = _table_inliner(prog, **kw).inline(f)
+        table_dispatch_conditions(prog, g)
+    else:
+        g = Inliner(prog, **kw).inline(f)
     deaddr(g)
     scalarise_globals(g)
     fold_container_of(prog, g)
@@ -1225,19 +1332,109 @@ def nearest_roots(prog, f):
     return [out[q] for q in sorted(out)]
 
 
+def _mentions_var(x, pred):
+    return any(isinstance(y, dict) and y.get('k') == 'var' and pred(y) for y in walk(x))
+
+
+def _call_only_param(f, idx):
+    """Is the idx-th parameter of f (a pointer into a table of function pointers) used for nothing but reading it,
+    stepping it and calling through it: never copied into another variable or memory, never handed on to a call,
+    never returned?  Then what it points to can be called only while f runs."""
+    if f is None or not f.blocks or idx >= len(f.params):
+        return False
+    name = f.params[idx]['name']
+    is_p = lambda y: y.get('vk') == 'param' and y.get('name') == name
+    for e in f.events():
+        if e['ev'] == 'store':
+            l = strip(e['lhs'])
+            own = isinstance(l, dict) and l.get('k') == 'var' and is_p(l)
+            if not own and (_mentions_var(e['lhs'], is_p) or ('rhs' in e and _mentions_var(e['rhs'], is_p))):
+                return False
+        elif e['ev'] == 'call':
+            if any(_mentions_var(a, is_p) for a in e.get('args', [])):
+                return False
+        elif e['ev'] == 'ret':
+            if 'value' in e and _mentions_var(e['value'], is_p):
+                return False
+    return True
+
+
+def table_callers(prog, x):
+    """Function x's address is taken.  When that happens only in initialisers of constant file-scope tables (const, or
+    never written) -> the functions from which x can be entered through such a table: those that name the table, each
+    use being a call through an element (`T[i](st)`, `T[i].run(st)`) or handing the table to a repo function that only
+    reads / steps / calls through that parameter (`run_hooks(st, T, n)`).  None when the address is used in any other
+    way (stored, passed on, a table that is written or escapes)."""
+    for f in prog.all_funcs():
+        u = prog.unit_of(f)
+        for e in f.events():
+            for y in walk(e):
+                if y.get('k') == 'var' and y.get('vk') == 'func' and y.get('name') == x.name:
+                    t = prog.resolve(u, y['name']) if u else prog.funcs.get(y['name'])
+                    if t is None or t.q == x.q:
+                        return None
+    tabs = []
+    for q, gl in prog.globals.items():
+        init = gl.get('init') if isinstance(gl, dict) else None
+        if not isinstance(init, dict):
+            continue
+        unit = gl.get('unit') or (q.split(':')[0] if ':' in q else None)
+        hit = False
+        for y in walk(init):
+            if y.get('k') == 'var' and y.get('vk') == 'func' and y.get('name') == x.name:
+                t = (prog.resolve(unit, y['name']) if unit else None) or prog.funcs.get(y['name'])
+                if t is None or t.q == x.q:
+                    hit = True
+        if hit:
+            if not str(gl.get('type', '')).startswith('const') and prog.global_writers(gl['name']):
+                return None
+            tabs.append((q, gl, unit))
+    if not tabs:
+        return None
+    out = {}
+    for (q, gl, unit) in tabs:
+        is_t = lambda y, gl=gl: y.get('vk') in ('global', 'staticlocal') and y.get('name') == gl['name']
+        for f in prog.all_funcs():
+            u = prog.unit_of(f)
+            if prog.global_key(u, gl['name']) != q if u else gl.get('static'):
+                continue
+            for e in f.events():
+                if e['ev'] == 'load' or not _mentions_var(e, is_t):
+                    continue
+                if e['ev'] != 'call':
+                    return None
+                for i, a in enumerate(e.get('args', [])):
+                    if not _mentions_var(a, is_t):
+                        continue
+                    a0 = strip_cast(a)
+                    while isinstance(a0, dict) and a0.get('k') == 'addr':      # &T[0]
+                        a0 = strip_cast(a0.get('e'))
+                        if isinstance(a0, dict) and a0.get('k') == 'index':
+                            a0 = strip_cast(a0.get('base'))
+                    h = (prog.resolve(u, e['callee']) if u else prog.funcs.get(e['callee'])) if 'callee' in e else None
+                    if not (isinstance(a0, dict) and a0.get('k') == 'var' and is_t(a0)) or not _call_only_param(h, i):
+                        return None
+                out[f.q] = f
+    return [out[k] for k in sorted(out)]
+
+
 def only_through(prog, f, gate):
-    """Every direct-call chain that reaches f passes through `gate`: climbing the callers of f and stopping at
-    gate, every function met has a caller and its address is never taken."""
+    """Every call chain that reaches f passes through `gate`: climbing the callers of f and stopping at gate, every
+    function met has a caller; a function whose address is taken is entered only through constant tables of function
+    pointers (table_callers), whose users then count as its callers."""
     at = roles.address_taken(prog)
     seen, work = {f.q}, [f]
     while work:
         x = work.pop()
         if x.q == gate.q:
             continue
+        via = []
         if x.q in at:
-            return False
+            via = table_callers(prog, x)
+            if via is None:
+                return False
         cs = [c for (c, e) in prog.callers_of(x.name)
-              if (prog.resolve(prog.unit_of(c), e['callee']) if prog.unit_of(c) else None) in (None, x)]
+              if (prog.resolve(prog.unit_of(c), e['callee']) if prog.unit_of(c) else None) in (None, x)] + via
         if not cs:
             return False
         for c in cs:
